@@ -1,5 +1,5 @@
 /-
-  Relic.Proofs.ReaderCab — the reader program `digestCab`, run on a whole file, is the whole-buffer model
+  Relic.Proofs.ReaderCab — the reader program `digestCabOrig`, run on a whole file, is the whole-buffer model
   `Relic.Cab.DigestCab` (result, bytes hashed, `patched`).
 -/
 import Relic.Proofs.ReaderFlat
@@ -196,9 +196,9 @@ theorem outHdr_seg (f : Bytes) (h36 : 36 ≤ f.length) (a b c : Nat) (u1 u2 u3 :
   rw [s 0 4 (by omega), s 4 8 (by omega), s 12 16 (by omega), s 20 26 (by omega), s 26 28 (by omega),
     s 28 30 (by omega), s 32 34 (by omega), s 34 36 (by omega)]
 
-theorem obs_cabTail (f : Bytes) (c : Nat) (d : Cab.Digest) (hc : c ≤ f.length) :
-    obs (runFlat (cabTail d) (at_ f c)) = if c < f.length then .err "trailing" else .ok (d, [], []) := by
-  simp only [cabTail, runFlat, at_]
+theorem obs_cabTailOrig (f : Bytes) (c : Nat) (d : Cab.Digest) (hc : c ≤ f.length) :
+    obs (runFlat (cabTailOrig d) (at_ f c)) = if c < f.length then .err "trailing" else .ok (d, [], []) := by
+  simp only [cabTailOrig, runFlat, at_]
   by_cases h : c < f.length
   · have : (List.drop c f).isEmpty = false := by
       cases hd : List.drop c f with
@@ -285,9 +285,9 @@ theorem obs_cabRest (f : Bytes) (tail : Cab.Digest → Prog Cab.Digest)
     rw [if_neg c3, if_pos c3']
     rfl
 
-theorem obs_cabTailFixed (f : Bytes) (c : Nat) (d : Cab.Digest) (hc : c ≤ f.length) :
-    obs (runFlat (cabTailFixed d) (at_ f c)) = if c < f.length then .err "trailing" else .ok (d, [], []) := by
-  simp only [cabTailFixed, runFlat, at_, flatCopy, List.length_drop]
+theorem obs_cabTail (f : Bytes) (c : Nat) (d : Cab.Digest) (hc : c ≤ f.length) :
+    obs (runFlat (cabTail d) (at_ f c)) = if c < f.length then .err "trailing" else .ok (d, [], []) := by
+  simp only [cabTail, runFlat, at_, flatCopy, List.length_drop]
   by_cases h : c < f.length
   · have h' : 0 < f.length - c := by omega
     rw [if_pos h', if_pos h]; rfl
@@ -326,11 +326,11 @@ theorem cab_flat_tail (f : Bytes) (tail : Cab.Digest → Prog Cab.Digest)
     simp only [h36, h36', ↓reduceIte]
 
 /-- **the reader program of `cabfile.Digest`, on a whole file, is the model `DigestCab`** -/
-theorem cab_flat (f : Bytes) : obs (runFlat digestCab (Flat.raw f .eof)) = cabObs f :=
-  cab_flat_tail f cabTail (fun c d hc => obs_cabTail f c d hc)
+theorem cab_orig_flat (f : Bytes) : obs (runFlat digestCabOrig (Flat.raw f .eof)) = cabObs f :=
+  cab_flat_tail f cabTailOrig (fun c d hc => obs_cabTailOrig f c d hc)
 
 /-- and so is the program with the proposed fix -/
-theorem cab_fixed_flat (f : Bytes) : obs (runFlat digestCabFixed (Flat.raw f .eof)) = cabObs f :=
-  cab_flat_tail f cabTailFixed (fun c d hc => obs_cabTailFixed f c d hc)
+theorem cab_flat (f : Bytes) : obs (runFlat digestCab (Flat.raw f .eof)) = cabObs f :=
+  cab_flat_tail f cabTail (fun c d hc => obs_cabTail f c d hc)
 
 end Relic.Rd
